@@ -10,6 +10,7 @@ pub mod c10;
 pub mod c11;
 pub mod c12;
 pub mod c14;
+pub mod c15;
 pub mod c20;
 pub mod smoke;
 
@@ -28,6 +29,7 @@ pub fn lookup(id: &str) -> Option<(&'static str, Runner)> {
         "SMOKE" => ("SMOKE", smoke::run as Runner),
         "C12" => ("C12", c12::run as Runner),
         "C14" => ("C14", c14::run as Runner),
+        "C15" => ("C15", c15::run as Runner),
         "C20" => ("C20", c20::run as Runner),
         _ => return None,
     })
